@@ -331,6 +331,7 @@ def check_todag(case, out):
     out.sample = {"directed": d, "undirected": u}
 
 
+THOROUGH_SCALE = 4  # thorough-tier example counts are n["thorough"] x this (one thorough run then takes roughly 5-10 minutes on 16 cores)
 SUBCHECKS = [
     Sub("pc_exhaustive", check_pc, enumerate=_enum_pc, shards={"quick": 12, "thorough": 16},
         doc="PC (orig/stable/parallel) x (callable d-sep oracle / independence_match) x (skeleton+sepsets, cpdag, pdag, dag) on every small DAG"),
